@@ -21,6 +21,9 @@ pub enum Op {
     SetSafe { db: usize, k: String, dv: i32, v: String },
     Remove { db: usize, k: String },
     Inc { db: usize, k: String, n: i32 },
+    /// `resolve <id> <db> <key> <version> <value>`: the write an arbiter (or any client of the database) answers a
+    /// conflict notice with; on a key without a waiting conflict it is a plain versioned write
+    Resolve { db: usize, k: String, ver: i32, v: String },
     Snapshot { db: usize, reclaim: bool },
     Tick,
     RestartClean,
@@ -48,6 +51,7 @@ pub fn op_strategy(ndbs: usize) -> impl Strategy<Value = Op> {
         1 => (db.clone(), ks(), select(vec![0, 1, -1]), select(values())).prop_map(|(db, k, dv, v)| Op::SetSafe { db, k, dv, v }),
         3 => (db.clone(), ks()).prop_map(|(db, k)| Op::Remove { db, k }),
         2 => (db.clone(), ks(), select(vec![1, -1, 5])).prop_map(|(db, k, n)| Op::Inc { db, k, n }),
+        1 => (db.clone(), ks(), select(vec![-2, -1, 0, 1, 7]), select(values())).prop_map(|(db, k, ver, v)| Op::Resolve { db, k, ver, v }),
         4 => (db.clone(), any::<bool>()).prop_map(|(db, reclaim)| Op::Snapshot { db, reclaim }),
         3 => Just(Op::Tick),
         1 => Just(Op::RestartClean),
@@ -242,6 +246,20 @@ pub fn step(w: &mut World, op: &Op) -> Option<(String, String)> {
             let cur = node.dbs.map.read().unwrap().get(DBS[*db]).and_then(|d| d.get_value(k.clone())).map(|x| x.version).unwrap_or(0);
             let ver = (cur + dv).max(0);
             let (r, _) = w.admin[*db].send(node, &format!("set-safe {} {} {}", k, ver, v));
+            node.pump();
+            if !is_refusal(&r) {
+                let h = w.h(*db, k);
+                if h.removed_after_persist {
+                    h.rewritten_after_tombstone = true;
+                }
+            }
+        }
+        Op::Resolve { db, k, ver, v } => {
+            if *db >= w.strategies.len() {
+                return None;
+            }
+            let node = w.node.as_mut().unwrap();
+            let (r, _) = w.admin[*db].send(node, &format!("resolve 7 {} {} {} {}", DBS[*db], k, ver, v));
             node.pump();
             if !is_refusal(&r) {
                 let h = w.h(*db, k);
